@@ -257,6 +257,11 @@ def run(ctx):
     # ---------------- R12.4 listing filters consult nothing but visibility / sectioning predicates
     nlf = listing_filters(fx, res, "R12.4", r"^clap_builder::output::(help_template|usage)::")
     res.floor("R12.4", "listing filters in help_template/usage", nlf, 15)
+    # ---------------- R12.1b checked lemmas behind audit reasons of the rendering code
+    import lemmas
+    lemmas.use_long_pv_implies_visible_value(fx, res, "R12.1")
+    lemmas.flat_map_lockstep(fx, res, "R12.1")
+    lemmas.positionals_have_index(fx, res, "R12.1")
     # ---------------- R12.3 help for the current level
     he = fx.body("clap_builder::parser::parser::Parser::help_err")
     okc = all(re.match(r"^self\.cmd", expr(he, c.args[0])) for c in he.calls_to(r"Command::write_help_err$", r"error::Error::display_help$"))
